@@ -81,8 +81,12 @@ NodeOfQ(DD, e) ==
 -----------------------------------------------------------------------------
 (* The property predicates.                                                *)
 
-\* the package returns what the program means
-PackageEqOracle(v, exp)       == v = exp
+\* the package returns what the program means.  (A reference to an object that does not exist
+\* -- e.g. a relative reference to a child space the deriving space has no counterpart of --
+\* is exported as None, exporter.py:252-261: where the model raises DeletedObjectError the
+\* package, which has no such exception, must fail too: AttributeError / TypeError.)
+PackageEqOracle(v, exp)       == \/ v = exp
+                                 \/ exp = ErrDeleted /\ v \in {ErrName, ErrType}
 \* ... and so does the live model (otherwise the finding is about the model or the oracle,
 \* not about export: reported as machinery label, never as C15)
 LiveEqOracle(v, exp)          == v = exp
@@ -120,12 +124,12 @@ MayCallStar(DD, front, seen) ==
     LET nxt == UNION {MayCall(DD, m) : m \in front} \ seen IN
     IF nxt = {} THEN seen ELSE MayCallStar(DD, nxt, seen \cup nxt)
 
-\* KF:C15.comprehension-after-nested-scope -- the package raises NameError / TypeError (the
-\* oracle says otherwise) and the element evaluates, directly or through its callees, a formula in which a
+\* KF:C15.comprehension-after-nested-scope -- the package raises NameError (the oracle says
+\* otherwise) and the element evaluates, directly or through its callees, a formula in which a
 \* global name stands inside a list/set/dict comprehension that follows a nested function or
 \* lambda (Python >= 3.12: transformer.py:188-193 steps back to the wrong symbol table)
 KFCompScope(DD, n, v, exp) ==
-    /\ v # exp /\ v \in {ErrName, ErrType}     \* (TypeError: the name left alone is also a built-in)
+    /\ v # exp /\ v = ErrName
     /\ \E m \in MayCallStar(DD, {n}, {n}) : HasSyn(DD, m, "compscope")
 
 \* KF:C15.parenthesised-global-name -- the package does not compile (SyntaxError) and some
